@@ -42,6 +42,8 @@ var c32OnlyOne = map[string]string{
 	"**": "TPL-only operator POW", "@": "TPL-only token AT",
 }
 
+const c32ScanResidual = "bec3136d"
+
 func runC32(c *core.Check) {
 	prog := c.Load("./scanner", "./tpl/scanner", "./token", "./tpl/token")
 	x, t := prog.Pkg("./scanner"), prog.Pkg("./tpl/scanner")
@@ -79,6 +81,11 @@ func runC32(c *core.Check) {
 
 	xt := extractTrie(x, core.FindFuncDecl(x, "Scanner.Scan"))
 	tt := extractTrie(t, core.FindFuncDecl(t, "Scanner.Scan"))
+	if ts := core.FindFuncDecl(t, "Scanner.Scan"); ts != nil && tt != nil {
+		h := scanResidualHash(t, ts, tt)
+		c.Decide(h == c32ScanResidual, "deviation", "Scanner.Scan:non-operator-parts", ts.Pos(), "reviewed ("+h+"): same prologue (pending unit after skipWhitespace, position minus len(unitVal)), literal/comment/EOF arms and epilogue as the XGo scanner, written against the result struct; no keywords",
+			"the non-operator parts of tpl/scanner's Scan (pending-unit prologue, identifier/number arms, literal/comment/EOF/newline arms, epilogue) were reviewed against the XGo scanner in the form with hash "+c32ScanResidual+" and now hash to "+h+": unverified divergence (e.g. a UNIT token positioned before instead of after skipping whitespace)")
+	}
 	if xt == nil || tt == nil {
 		c.Undecided("trie", "extract", 0, "cannot extract the operator switch of one of the Scan functions")
 		return
